@@ -198,7 +198,7 @@ class BatchLoader(LoaderBase):
             _images[_id] = binned_image
 
         if _compute_dict:
-            _computed = da.compute(_compute_dict)
+            _computed = da.compute(_compute_dict)[0]
             _images.update(_computed)
 
         out = self.replace(
